@@ -328,6 +328,10 @@ func (s *Sim) emitLocked(task *Task, kind string, obj int, detail string) uint64
 	h = fnvs(h, detail)
 	h = fnv64(h, uint64(at))
 	s.hash = h
+	if kind == "op" || kind == "fault" {
+		// workload operations and injected faults are part of what makes two runs distinct
+		s.schedHash = fnvs(fnvs(s.schedHash, kind), detail)
+	}
 	if s.KeepLog && len(s.Log) < s.logCap {
 		s.Log = append(s.Log, Event{s.seq, at, name, kind, obj, detail})
 	}
